@@ -560,9 +560,9 @@ func childMain(args []string) int {
 	fromJ, _ := strconv.Atoi(args[2])
 	fromUnit, _ := strconv.Atoi(args[3])
 	runtime.GOMAXPROCS(1)
-	// few, large GC cycles: the live heap is tiny, so collect only when 192 MiB of garbage piled up
+	// few, large GC cycles: the live heap is tiny, so collect only when 128 MiB of garbage piled up
 	debug.SetGCPercent(-1)
-	debug.SetMemoryLimit(192 << 20)
+	debug.SetMemoryLimit(128 << 20)
 	var lim syscall.Rlimit
 	lim.Cur, lim.Max = asLimit, asLimit
 	if err := syscall.Setrlimit(syscall.RLIMIT_AS, &lim); err != nil {
@@ -600,6 +600,7 @@ func childMain(args []string) int {
 		if len(seed) > 192 {
 			full = false
 		}
+		protect(func() { d.dec(seed, 1<<20) }) // warm-up, not measured: type information caches
 		muts := mutants(rng, d, seed, other, full, j < len(decoders), sample)
 		rec := groupRec{Type: "group", Group: g, Counters: map[string]int64{}, MaxRatio: map[string]float64{}, Decoder: d.name}
 		gStart := time.Now()
@@ -659,6 +660,17 @@ func childMain(args []string) int {
 					pi := protect(func() { derr = d.dec(m.data, lmt) })
 					runtime.ReadMemStats(&ms2)
 					delta := ms2.TotalAlloc - ms1.TotalAlloc
+					if pi == nil && delta > allocBound(d, lmt, len(m.data)) && delta < 64<<20 {
+						// measure once more and keep the smaller figure: one-time lazy initialisation
+						// (go-wire builds its per-type info on first use) is not the input's allocation
+						runtime.ReadMemStats(&ms1)
+						protect(func() { d.dec(m.data, lmt) })
+						runtime.ReadMemStats(&ms2)
+						if d2 := ms2.TotalAlloc - ms1.TotalAlloc; d2 < delta {
+							delta = d2
+						}
+						rec.Counters["remeasured|"+d.name]++
+					}
 					rec.Counters[inKey[li]]++
 					rec.Counters[mutKey(m.kind)]++
 					mk := func(key, what string) robustViol {
@@ -795,6 +807,7 @@ func runRobust(nshards int) {
 		fromJ, fromUnit := 0, 0
 		restarts := 0
 		deathGroup, deathsInGroup := -1, 0
+		retryJ, retryUnit := -1, -1
 		for {
 			var stderr bytes.Buffer
 			cmd := exec.Command(self, "child", strconv.Itoa(s), strconv.Itoa(nshards), strconv.Itoa(fromJ), strconv.Itoa(fromUnit), outf, inf)
@@ -840,14 +853,20 @@ func runRobust(nshards int) {
 			// the child died: the last logged input is the witness
 			st := stderr.String()
 			if m := allocReq.FindStringSubmatch(st); m != nil && h != nil {
-				// memory exhaustion: attributable to the logged input only if the failing request
-				// itself exceeds what that input may allocate
+				// Memory exhaustion is attributable to the logged input only if the failing request is
+				// one large object (runtime allocLarge; a small-object refill asks for a 4 MiB heap chunk
+				// whatever the object) that exceeds what this input may allocate. Otherwise the address
+				// space was used up by earlier inputs of this process: run the same input again in a
+				// fresh process; if it kills that one too, it is the input's doing.
 				req, _ := strconv.ParseUint(m[1], 10, 64)
-				if d := decoderByName(h.Decoder); d != nil && req <= allocBound(d, h.Limit, h.Len) {
+				d := decoderByName(h.Decoder)
+				attributable := d != nil && strings.Contains(st, "allocLarge") && req > allocBound(d, h.Limit, h.Len)
+				if !attributable && !(retryJ == h.J && retryUnit == h.Unit) {
+					retryJ, retryUnit = h.J, h.Unit
 					results[s].unattributed++
-					fromJ, fromUnit = h.J, h.Unit
-					if results[s].unattributed > 3 {
-						results[s].incon = fmt.Sprintf("robust child %d ran out of memory %d times on requests within the bound (last: %d bytes while decoding %s)", s, results[s].unattributed, req, h.Decoder)
+					fromJ, fromUnit = h.J, h.Unit-1
+					if results[s].unattributed > 25 {
+						results[s].incon = fmt.Sprintf("robust child %d ran out of address space %d times on requests that are not attributable to the logged input (last: %d bytes while decoding %s)", s, results[s].unattributed, req, h.Decoder)
 						break
 					}
 					continue
@@ -974,6 +993,8 @@ func runRobust(nshards int) {
 					run.Count("robust_overalloc", v)
 				case "skip":
 					run.Count("robust_ladder_steps_skipped_after_overalloc", v)
+				case "remeasured":
+					run.Count("robust_alloc_remeasured", v)
 				}
 			}
 			for k, v := range rec.MaxRatio {
